@@ -174,6 +174,7 @@ class Harness:
         self.check_fn = None
         self.result_sink = None
         self.extra = {}
+        CURRENT["h"] = self
 
     # -- logging ---------------------------------------------------------
     def ev(self, kind, pid=None, **data):
@@ -261,8 +262,8 @@ class Harness:
 
     def _start_event(self, pid, args, kwargs, mode):
         spec = self.specs[pid]
-        want_args = [jsonable(a) for a in spec.get("args", [])]
-        want_kwargs = {k: jsonable(v) for k, v in spec.get("kwargs", {}).items()}
+        want_args = [jsonable(make_arg(a)) for a in spec.get("args", [])]
+        want_kwargs = {k: jsonable(make_arg(v)) for k, v in spec.get("kwargs", {}).items()}
         got_args = [jsonable(a) for a in args]
         got_kwargs = {k: jsonable(v) for k, v in kwargs.items()}
         self.ev("start", pid, ctx=self.context(), args=got_args, kwargs=got_kwargs, args_ok=(got_args == want_args and got_kwargs == want_kwargs), mode=mode)
@@ -661,27 +662,53 @@ def _section(h, flavour, pid, n):
 patches.monitor_function(_section)
 
 
+CURRENT = {"h": None}
+
+
 class _SvcBase:
+    """Harness services. cobald registers a service unit in __new__, i.e. *before* __init__ has run;
+    a service created in one thread can therefore be started by the accept loop (another thread)
+    while it is still half constructed.  That is recorded as an event (judged by C13); the payload
+    itself waits for its constructor so that exactly-once accounting stays meaningful."""
+
     def __init__(self, h, pid):
         self.h = h
         self.pid = pid
+        self.init_done = True
+
+    def _early(self):
+        if not getattr(self, "init_done", False):
+            h = CURRENT["h"]
+            h.ev("service-run-before-init", None, cls=type(self).__name__)
+            S.probe("service-run-before-init")
+            return True
+        return False
 
 
 @service(flavour=threading)
 class ThreadSvc(_SvcBase):
     def run(self):
+        if self._early():
+            while not getattr(self, "init_done", False):
+                time.sleep(0)
         return self.h.run_sync(self.pid, (), {}, mode="service")
 
 
 @service(flavour=asyncio)
 class AioSvc(_SvcBase):
     async def run(self):
+        if self._early():
+            while not getattr(self, "init_done", False):
+                await asyncio.sleep(0)
         return await self.h.run_async(self.pid, (), {}, asyncio.sleep, asyncio.CancelledError, mode="service")
 
 
 @service(flavour=trio)
 class TrioSvc(_SvcBase):
     async def run(self):
+        if self._early():
+            while not getattr(self, "init_done", False):
+                await trio.sleep(0)
         return await self.h.run_async(self.pid, (), {}, trio.sleep, trio.Cancelled, mode="service")
 
 
